@@ -16,6 +16,9 @@
 //	a<i>              the client drops the connection                                      -> .
 //	nS | nP           a fresh connection attempt (a complete little session if accepted)   -> accepted | refused
 //	DS | DP           Drain() of that server: has it returned (within the deadline)?       -> returned | blocked
+//	G / U             the store handed to the POP3 server blocks in RemoveMessage / lets go -> .
+//	q<i>              POP3: send QUIT and read the reply only                               -> +OK
+//	e<i>              wait until the server has closed session i's connection               -> +OK/<messages left>
 //
 //	ret <period> <n> <when>  retention scanner over n mailboxes: Start/Join and DoScan against cancellation
 package main
@@ -96,7 +99,42 @@ type world struct {
 	hubDone    chan struct{}
 	rsDone     chan struct{}
 	hubEvents  *recorder
+	gs         *gateStore
 	openByProt [2]int
+}
+
+// gateStore is the store handed to the POP3 server: RemoveMessage can be made to wait.
+type gateStore struct {
+	storage.Store
+	mu   sync.Mutex
+	gate chan struct{}
+}
+
+func (g *gateStore) RemoveMessage(mailbox, id string) error {
+	g.mu.Lock()
+	ch := g.gate
+	g.mu.Unlock()
+	if ch != nil {
+		<-ch
+	}
+	return g.Store.RemoveMessage(mailbox, id)
+}
+
+func (g *gateStore) shut() {
+	g.mu.Lock()
+	if g.gate == nil {
+		g.gate = make(chan struct{})
+	}
+	g.mu.Unlock()
+}
+
+func (g *gateStore) open() {
+	g.mu.Lock()
+	if g.gate != nil {
+		close(g.gate)
+		g.gate = nil
+	}
+	g.mu.Unlock()
 }
 
 type recorder struct {
@@ -140,7 +178,8 @@ func newWorld(retention string) (*world, error) {
 	w.hub = msghub.New(conf.Web.MonitorHistory, extHost)
 	mm := &message.StoreManager{AddrPolicy: addrPolicy, Store: w.store, ExtHost: extHost}
 	w.rs = storage.NewRetentionScanner(conf.Storage, w.store)
-	w.pop3, err = pop3.NewServer(conf.POP3, w.store)
+	w.gs = &gateStore{Store: w.store}
+	w.pop3, err = pop3.NewServer(conf.POP3, w.gs)
 	if err != nil {
 		return nil, err
 	}
@@ -383,6 +422,7 @@ func runLife(ops []string) []string {
 		}
 	}
 	defer func() {
+		w.gs.open()
 		holdNext[0].Store(nil)
 		holdNext[1].Store(nil)
 		for _, c := range cs {
@@ -397,6 +437,28 @@ func runLife(ops []string) []string {
 		case o == "k":
 			doCancel()
 			outs = append(outs, ".")
+		case o == "G":
+			w.gs.shut()
+			outs = append(outs, ".")
+		case o == "U":
+			w.gs.open()
+			outs = append(outs, ".")
+		case o[0] == 'q':
+			c := cs[vh.AtoI(o[1:])]
+			if c == nil || !c.open || c.hold != nil || c.proto != 1 {
+				outs = append(outs, "?")
+				continue
+			}
+			outs = append(outs, c.cmd("QUIT"))
+		case o[0] == 'e':
+			c := cs[vh.AtoI(o[1:])]
+			if c == nil || !c.open || c.proto != 1 {
+				outs = append(outs, "?")
+				continue
+			}
+			c.waitClosed()
+			closeClient(c)
+			outs = append(outs, fmt.Sprintf("+OK/%d", w.count(c.mailbox)))
 		case o == "DS" || o == "DP":
 			p := 0
 			if o == "DP" {
@@ -519,6 +581,7 @@ func runLife(ops []string) []string {
 		}
 	}
 	// End of the case: shut down whatever is left and check that waiting ends.
+	w.gs.open()
 	doCancel()
 	for _, c := range cs {
 		closeClient(c)
